@@ -128,8 +128,8 @@ def run(ctx):
         if not same:
             ctx.violation(f"not-reproducible:{name}", f"{name}: two runs with the same seeds/generators differ", {"component": name, "seed": key})
 
-    for rep in range(ctx.scale(2, 8)):
-        seed = ctx.rng.randrange(1 << 20)
+    seeds = [0] + [ctx.rng.randrange(1 << 20) for _ in range(ctx.scale(2, 8))]      # 0 is a seed like any other
+    for rep, seed in enumerate(seeds):
         for nsname in ("numpy", "torch", "jax"):
             for kind in ("importance", "minipcn", "minipcn_smc"):
                 def f(kind=kind, nsname=nsname, seed=seed):
